@@ -1281,6 +1281,8 @@ def _map_label(l, m):
     """a label under a renaming of base labels: 'pos#2' -> m['pos#2'];  slices 'pos#2[::2]' and shifted copies keep their decoration"""
     if not isinstance(l, str):
         return l
+    if l in m:
+        return m[l]          # the label itself (decoration included) is renamed
     base = l.split('[')[0]
     core = base.rstrip("'~")
     if core in m:
